@@ -400,6 +400,35 @@ def oracle(ctx):
             ctx.fail("oracle", "symeig-grad:close-pair-at-small-scale:%s" % method,
                      {"spectrum": spec.tolist(), "method": method, "n": n, "generator_seed": g.initial_seed()},
                      {"impl": outs[0].tolist(), "reference": outs[1].tolist()}, "agree to 1e-4 (the pair is separated by 200 thresholds)")
+    # ---- the caller's degeneracy thresholds are the ones used (documented backward options degen_atol / degen_rtol): a pair
+    #      at |e| ~ 1000 separated by 3e-4 is degenerate for the default relative threshold (eps^0.4 |e| = 5.5e-4) and resolved
+    #      for degen_rtol = 1e-10 or for both thresholds zero (round-3 seed C06/9: degen_rtol read from the key of degen_atol) ----
+    for rep in range(ctx.n(2, 6)):
+        g = gen(rng)
+        n = 5
+        spec = torch.tensor([1000.0, 1000.0003, 1003.0, 1005.0, 1007.0], dtype=DT)
+        A0, _ = planted(g, n, spec, (), DT, False)
+        Ad = herm(torch.randn(2, n, n, dtype=DT, generator=g))
+        ce = torch.randn(3, dtype=DT, generator=g)
+        Cm = herm(torch.randn(n, n, dtype=DT, generator=g))
+        for bck in ({"degen_rtol": 1e-10}, {"degen_rtol": 0.0, "degen_atol": 0.0}, {"degen_rtol": 1e-10, "degen_atol": 1e-12}):
+            outs = []
+            for which in ("impl", "ref"):
+                th = torch.zeros(2, dtype=DT, requires_grad=True)
+                Am = A0 + (th.reshape(2, 1, 1) * Ad).sum(0)
+                with warnings.catch_warnings():
+                    warnings.simplefilter("ignore")
+                    if which == "impl":
+                        e_, X_ = symeig(xt.LinearOperator.m(Am, is_hermitian=True), 3, "lowest", method="custom_exacteig", bck_options=dict(bck))
+                    else:
+                        e_, X_ = dense_pairs(Am, None, 3, True)
+                    L_ = (ce * e_).sum() + 1e-3 * (Cm * (X_[:, :1] @ X_[:, :1].T)).sum()
+                    outs.append(torch.autograd.grad(L_, th)[0])
+            ctx.count(("user-degeneracy-thresholds", rep, tuple(sorted(bck.items()))), nontrivial=True)
+            sc = 1 + float(outs[1].abs().max())
+            if not torch.isfinite(outs[0]).all() or float((outs[0] - outs[1]).abs().max()) > 1e-4 * sc:
+                ctx.fail("oracle", "symeig-grad:user-degeneracy-thresholds", {"spectrum": spec.tolist(), "bck_options": bck, "generator_seed": g.initial_seed()},
+                         {"impl": outs[0].tolist(), "reference": outs[1].tolist()}, "agree to 1e-4 (the pair is resolved with the caller's thresholds)")
     # ---- exactly diagonal operators, partial spectrum: the shifted systems are exactly singular and the exact solver retries
     #      with a small diagonal shift (seeded defect C06/5: the retry lost the eigenvalue shift) ----
     for kind in ("dense", "mf"):
@@ -469,11 +498,20 @@ def oracle(ctx):
         mn = min(m, n)
         k = rng.randrange(1, mn + 1)
         mode = rng.choice(["uppest", "lowest"])
-        A0 = torch.randn(m, n, dtype=dtype, generator=g).requires_grad_()
+        # overall scale of the operator: ds/dA = u v^H does not depend on it (seeded C06/7: eigenvalues of A^H A clamped at 1e-12)
+        amp = rng.choice([1.0, 1.0, 1e-3, 1e-8])
+        A0 = (amp * torch.randn(m, n, dtype=dtype, generator=g)).requires_grad_()
         cs = torch.randn(k, dtype=DT, generator=g)
+        if amp != 1.0:
+            # the eigenvalues of A^H A are then closer than the documented absolute degeneracy threshold (eps^0.6): only
+            # functions that do not depend on the basis inside the (numerically) degenerate subspace are in the property:
+            # the full reconstruction and the sum of all singular values
+            k = mn
+            cs = torch.full((k,), 0.7, dtype=DT)
         C = torch.randn(m, n, dtype=dtype, generator=g)
-        info = {"fn": "svd", "method": method, "m": m, "n": n, "k": k, "mode": mode, "complex": cplx, "generator_seed": g.initial_seed()}
-        ctx.count(("svd-grad", rep, method, m, n, k, mode, cplx), nontrivial=True)
+        info = {"fn": "svd", "method": method, "m": m, "n": n, "k": k, "mode": mode, "complex": cplx, "generator_seed": g.initial_seed(),
+                "A": "%g * randn" % amp}
+        ctx.count(("svd-grad", rep, method, m, n, k, mode, cplx, amp), nontrivial=True)
 
         def loss_of(u, s, vh):
             rec = (u * s.unsqueeze(-2).to(dtype)) @ vh
@@ -493,9 +531,62 @@ def oracle(ctx):
         r1, = torch.autograd.grad(loss_of(Uk, Sk, Vk), A1, create_graph=True)
         r2, = torch.autograd.grad((r1 * w.conj()).sum().real, A1)
         for nm, a, b, tol in (("first-order", g1.detach(), r1.detach(), 1e-7), ("second-order", g2, r2, 1e-5)):
+            if nm == "second-order" and amp != 1.0:
+                break                                      # second derivatives scale like 1/amp: compared at unit scale only
             sc = 1 + b.abs().max().item()
             if not torch.isfinite(a).all() or (a - b).abs().max().item() > tol * sc:
                 ctx.fail("oracle", "svd-grad:%s" % nm, info, {"max_diff": (a - b).abs().max().item(), "scale": sc}, "agree to %g" % tol)
+                break
+
+    # ---- svd of matrix-free operators that define the forward product only: A^H comes from LinearOperator's autograd
+    #      adjoint, and its result must stay connected to the operator's parameters (seeded C06/8) ----
+    class ScaledKernel(xt.LinearOperator):
+        def __init__(self, a, K, b):
+            super().__init__(shape=K.shape, is_hermitian=False, dtype=K.dtype, device=K.device)
+            self.a, self.K, self.b = a, K, b
+
+        def _mv(self, x):
+            return self.a * torch.matmul(self.K, (self.b * x).unsqueeze(-1)).squeeze(-1)
+
+        def _getparamnames(self, prefix=""):
+            return [prefix + "a", prefix + "K", prefix + "b"]
+    for rep in range(ctx.n(6, 40)):
+        g = gen(rng)
+        # the first repetitions enumerate wide / tall / square x the two dense methods, the rest is random
+        combos = [((3, 5), "exacteig"), ((5, 3), "custom_exacteig"), ((4, 4), "exacteig"), ((2, 6), "custom_exacteig"), ((5, 3), "exacteig"),
+                  ((3, 5), "custom_exacteig")]
+        (m, n), method = combos[rep] if rep < len(combos) else (rng.choice([(5, 3), (3, 5), (4, 4), (2, 6), (6, 2)]), rng.choice(["exacteig", "custom_exacteig"]))
+        mn = min(m, n)
+        k = rng.choice([mn, max(1, mn - 1)])
+        mode = rng.choice(["uppest", "lowest"])
+        K = torch.randn(m, n, dtype=DT, generator=g)
+        a0 = torch.rand(m, dtype=DT, generator=g) + 0.5
+        b0 = torch.rand(n, dtype=DT, generator=g) + 0.5
+        W = torch.randn(m, n, dtype=DT, generator=g)
+        cs = torch.randn(k, dtype=DT, generator=g)
+        info = {"fn": "svd", "operator": "matrix-free diag(a) K diag(b), _mv only", "method": method, "m": m, "n": n, "k": k, "mode": mode,
+                "generator_seed": g.initial_seed()}
+        ctx.count(("svd-grad-mf", rep, method, m, n, k, mode), nontrivial=True)
+
+        def loss_mf(u, s, vh):
+            return (cs * s).sum() + (W * ((u * s.unsqueeze(-2)) @ vh)).sum()
+        a = a0.clone().requires_grad_()
+        b = b0.clone().requires_grad_()
+        try:
+            u, s, vh = svd(ScaledKernel(a, K, b), k, mode, method=method)
+            ga, gb = torch.autograd.grad(loss_mf(u, s, vh), (a, b))
+        except Exception as ex:
+            ctx.fail("oracle", "svd-grad:matrix-free:exception", info, repr(ex)[:300], "gradients")
+            continue
+        ar = a0.clone().requires_grad_()
+        br = b0.clone().requires_grad_()
+        U, S, Vh = torch.linalg.svd(ar.unsqueeze(-1) * K * br, full_matrices=False)
+        sl = slice(0, k) if mode == "uppest" else slice(mn - k, mn)
+        ra, rb = torch.autograd.grad(loss_mf(U[:, sl].flip(-1), S[sl].flip(-1), Vh[sl, :].flip(-2)), (ar, br))
+        for nm, x, y in (("a", ga, ra), ("b", gb, rb)):
+            sc = 1 + y.abs().max().item()
+            if not torch.isfinite(x).all() or not (x - y).abs().max().item() <= 1e-6 * sc:
+                ctx.fail("oracle", "svd-grad:matrix-free:first-order:%s" % nm, info, {"max_diff": (x - y).abs().max().item(), "scale": sc}, "agree to 1e-6")
                 break
 
 
